@@ -220,6 +220,25 @@ func (t *C11Test) RuleFields(logPath string) []string {
 	return f
 }
 
+// BuildFields lists what decides whether the test binary must be (re)built and under which key the build
+// cache holds it: the varying parts of the non-runtime rule hash (label, declared dependencies, source names,
+// outs, build command) and the contents of the sources.
+func (s *C11Spec) BuildFields(t *C11Test, logPath string) []string {
+	f := []string{t.Label()}
+	deps := []string{}
+	for _, d := range t.Data {
+		if strings.HasPrefix(d, ":") {
+			deps = append(deps, "//"+C11Pkg+d)
+		}
+	}
+	sort.Strings(deps)
+	f = append(f, deps...)
+	for _, src := range t.Srcs {
+		f = append(f, src, s.Files[src])
+	}
+	return append(f, t.Out, t.BuildCmd(logPath))
+}
+
 func (s *C11Spec) buildFile(logPath string) string {
 	var b strings.Builder
 	for _, g := range s.Gens {
